@@ -113,7 +113,7 @@ func mapFieldOfSlice(v ssa.Value) string {
 // returns a map[string]any hands out a map it made itself (or nil), never the value found in DB.metadataMap: readers
 // serialise the result without any lock while writers update the stored map.
 func ruleGRDownmeta(w *World, r *Report) {
-	r.Doc("GRD-own-meta", "every pkg/core function that looks a node's metadata up in DB.metadataMap and returns a map[string]any returns a map allocated in that function (or nil), never the stored map", 3)
+	r.Doc("GRD-own-meta", "every pkg/core function that looks a node's metadata up in DB.metadataMap and returns a map[string]any returns a map allocated in that function (or nil), never the stored map", 1)
 	n := 0
 	for _, fn := range w.pkgSSAFuncs("pkg/core") {
 		if fn.Parent() != nil {
